@@ -224,6 +224,13 @@ def run(rep):
     # ---- R08.d -----------------------------------------------------------
     check_no_shared_store(rep, 'R08.d', rp)
 
+    # ---- R08.e -----------------------------------------------------------
+    rep.rule('R08.e', 'the error serialisers never use error text as a format template (the fallback renderer runs the same code, '
+                      'so a raising serialiser cannot be rescued and the exception reaches the WSGI server)')
+    from .c09 import check_template_constancy
+    if check_template_constancy(rep, 'R08.e') < 3:
+        raise AnalysisError('format sinks in the to_* serialisers not found')
+
 
 def check_no_shared_store(rep, rule, rp=None):
     from .. import effects
@@ -243,6 +250,12 @@ def check_no_shared_store(rep, rule, rp=None):
                   '%s (%s)' % (cls, why) if cls != 'shared' else
                   'store into a shared object on the request path (%s): per-request data would outlive the request / leak between '
                   'requests; reached via %s' % (why, path_text(path)), fi.mod, e.node)
+    for ci, m, field, st_, fresh in rp.field_freshness():
+        rep.check(rule, '%s::%s::self.%s = %s' % (ci.mod.name, m.qualname, field, norm(st_.value)[:60]), fresh,
+                  'per-request field %s (mutated in place elsewhere) is assigned a freshly allocated object' % field if fresh else
+                  '%s.%s is mutated in place by the class but is assigned %s here: the per-request object aliases a longer-lived '
+                  'object (e.g. a route\'s own method set) and later mutates it -- a request would change state that outlives it'
+                  % (ci.name, field, short(st_.value)), ci.mod, st_)
     for fi in rp.reach:
         if not fi.mod.external and fi not in seen_funcs:
             n_funcs += 1
